@@ -98,6 +98,10 @@ func (g *GlobalTransactionManager) Commit(ctx context.Context, gtr *GlobalTransa
 		bf.Wait()
 	}
 
+	if err == nil && res == nil {
+		// no request was sent at all, e.g. the context was already cancelled
+		err = errors.New("global commit request was not sent")
+	}
 	if err != nil || bf.Err() != nil {
 		lastErr := errors.Wrap(err, bf.Err().Error())
 		log.Warnf("send global commit request failed, xid %s, error %v", gtr.Xid, lastErr)
@@ -140,6 +144,10 @@ func (g *GlobalTransactionManager) Rollback(ctx context.Context, gtr *GlobalTran
 		bf.Wait()
 	}
 
+	if err == nil && res == nil {
+		// no request was sent at all, e.g. the context was already cancelled
+		err = errors.New("global rollback request was not sent")
+	}
 	if err != nil && bf.Err() != nil {
 		lastErr := errors.Wrap(err, bf.Err().Error())
 		log.Errorf("GlobalRollbackRequest rollback failed, xid %s, error %v", gtr.Xid, lastErr)
